@@ -141,22 +141,27 @@ def generate(prop, rng):
                 ops.append({"op": o, "slot": slot, "rel": rng.choice(names + [""])})
             elif o == "checkout_rec":
                 ops.append({"op": o, "slot": slot, "tree": rng.randrange(ntrees), "link": rng.choice(links),
-                            "as_file": rng.random() < 0.4})
+                            "as_file": rng.random() < 0.4, "force": rng.random() < 0.6})
             else:
                 ops.append({"op": o, "used": [s for s in ("p0", "p1", "p2") if rng.random() < 0.4]})
         if rng.random() < 0.4:
             # a focused motif at the end: record a link, touch it (or not) in some way, clean up
             slot = rng.choice(["p0", "p1", "p2"])
-            ops.append({"op": "materialise", "slot": slot, "tree": rng.randrange(ntrees), "as_file": rng.random() < 0.5})
+            m_as_file = rng.random() < 0.5
+            ops.append({"op": "materialise", "slot": slot, "tree": rng.randrange(ntrees), "as_file": m_as_file})
             if rng.random() < 0.5:
                 ops.append({"op": "save_link", "slot": slot})
             else:
                 ops.append({"op": "checkout_rec", "slot": slot, "tree": rng.randrange(ntrees), "link": rng.choice(links),
-                            "as_file": rng.random() < 0.5})
+                            "as_file": rng.random() < 0.5, "force": rng.random() < 0.6})
             if rng.random() < 0.75:
                 ops.append({"op": "user_write", "slot": slot, "rel": rng.choice(names), "tag": rng.randrange(1000),
                             "how": rng.choice(["inplace", "replace", "inplace_older", "inplace_older"]),
                             "existing": True, "pick": rng.random()})
+                if rng.random() < 0.4:
+                    # ... and an unforced checkout over the edited path, which has to be refused
+                    ops.append({"op": "checkout_rec", "slot": slot, "tree": rng.randrange(ntrees), "link": rng.choice(links),
+                                "as_file": m_as_file, "force": False})
             ops.append({"op": "cleanup", "used": [s for s in ("p0", "p1", "p2") if s != slot and rng.random() < 0.4]})
     sc["ops"] = ops
     return sc
@@ -406,15 +411,23 @@ def _exec_c05_links(sc, ctx, env):
         elif o == "checkout_rec":
             p = slot_path(op["slot"])
             ctx.clock.advance(10**9)
+            before_co = model.snapshot(p)
             try:
                 env.odb.cache_types = [op.get("link", "copy")]
                 tobj = env.file_obj(sorted(sc["trees"][op["tree"]].values())[0]) if op.get("as_file") else env.tree_obj(op["tree"])
-                checkout(p, env.w.localfs, tobj, env.odb, force=True, state=st)
+                checkout(p, env.w.localfs, tobj, env.odb, force=op.get("force", True), state=st)
                 recorded[op["slot"]] = model.files_of(model.snapshot(p))
-            except Exception:  # noqa: BLE001
-                # a failed checkout may or may not have touched the path and may
-                # or may not have (re-)recorded it: the model does not know
-                recorded[op["slot"]] = None
+            except Exception as exc:  # noqa: BLE001
+                from dvc_data.hashfile.checkout import PromptError
+
+                if isinstance(exc, PromptError) and model.snapshot(p) == before_co:
+                    # refused, nothing touched: whatever was recorded before (or nothing) still is; a
+                    # refusal must not turn the user's file into "a link we created"
+                    ctx.probe("recorded_checkout_refused")
+                else:
+                    # a failed checkout may or may not have touched the path and may
+                    # or may not have (re-)recorded it: the model does not know
+                    recorded[op["slot"]] = None
         elif o == "user_write":
             p = slot_path(op["slot"])
             if not os.path.lexists(p):
